@@ -7,5 +7,6 @@ CONSTANTS
   WR <- Write
   TD <- ToDec
   NT <- NumText
+  NTL <- NumTextLoc
 INVARIANTS LawUtf8RoundTrip
 CHECK_DEADLOCK FALSE
